@@ -47,58 +47,49 @@ pub fn compute_root_from_queries(
     authentications: Vec<Felt>,
     auth_start: usize,
 ) -> Result<Felt, Error> {
-    let current = queue.get(start).ok_or(Error::IndexInvalid)?;
+    // Iterative: the work list grows by one node per step, so recursing once per node would need a
+    // stack proportional to the number of queries times the tree height.
+    let mut start = start;
+    let mut auth_start = auth_start;
+    loop {
+        let current = queue.get(start).ok_or(Error::IndexInvalid)?;
+        let (index, value, depth) = (current.index, current.value, current.depth);
 
-    if current.index == Felt::ONE {
-        // root
-        Ok(current.value)
-    } else {
-        let (parent, bit) = current.index.div_rem(&NonZeroFelt::TWO);
-        let is_verifier_friendly = n_verifier_friendly_layers >= current.depth;
+        if index == Felt::ONE {
+            // root
+            return Ok(value);
+        }
+
+        let (parent, bit) = index.div_rem(&NonZeroFelt::TWO);
+        let is_verifier_friendly = n_verifier_friendly_layers >= depth;
 
         let hash = if bit == Felt::ZERO {
             if start + 1 != queue.len() {
                 let next = queue.get(start + 1).ok_or(Error::IndexInvalid)?;
-                if current.index + 1 == next.index {
+                if index + 1 == next.index {
                     // next is a sibling of current
-                    let hash =
-                        hash_friendly_unfriendly(current.value, next.value, is_verifier_friendly);
-                    queue.push(QueryWithDepth {
-                        index: parent,
-                        value: hash,
-                        depth: current.depth - 1,
-                    });
-                    return compute_root_from_queries(
-                        queue,
-                        start + 2,
-                        n_verifier_friendly_layers,
-                        authentications,
-                        auth_start,
-                    );
+                    let hash = hash_friendly_unfriendly(value, next.value, is_verifier_friendly);
+                    queue.push(QueryWithDepth { index: parent, value: hash, depth: depth - 1 });
+                    start += 2;
+                    continue;
                 }
             }
             hash_friendly_unfriendly(
-                current.value,
+                value,
                 *authentications.get(auth_start).ok_or(Error::IndexInvalid)?,
                 is_verifier_friendly,
             )
         } else {
             hash_friendly_unfriendly(
                 *authentications.get(auth_start).ok_or(Error::IndexInvalid)?,
-                current.value,
+                value,
                 is_verifier_friendly,
             )
         };
 
-        queue.push(QueryWithDepth { index: parent, value: hash, depth: current.depth - 1 });
-
-        compute_root_from_queries(
-            queue,
-            start + 1,
-            n_verifier_friendly_layers,
-            authentications,
-            auth_start + 1,
-        )
+        queue.push(QueryWithDepth { index: parent, value: hash, depth: depth - 1 });
+        start += 1;
+        auth_start += 1;
     }
 }
 
